@@ -1,7 +1,7 @@
 /-
 The default methods of the traits ShortMessage (short_message.rs) and ShortMessageFactory (short_message_factory.rs)
-as TRANSLATED (Midi.Gen.ShortMsg, Midi.Gen.FactoryDefaults, regenerated on every run) are the functions of the
-hand-written model (Midi.Model.Short), method by method.
+and the inherent methods of the classification enums, as TRANSLATED (Midi.Gen.ShortMsg, Midi.Gen.FactoryDefaults,
+regenerated on every run), are the functions of the hand-written model (Midi.Model.Short / Types), method by method.
 -/
 import Midi.Gen.ShortMsg
 import Midi.Gen.FactoryDefaults
@@ -206,4 +206,16 @@ theorem plain (F : Factory β) :
       ShortMessageFactory.system_reset, mkSystemExclusiveStart, mkPlain, bind_ok']
 
 end FD
+end Midi.GenTie
+
+namespace Midi.GenTie
+open Midi Midi.Gen
+namespace EN
+open Midi.Gen.ShortMsg
+theorem type_super_type (t : MsgType) : ShortMessageType.super_type t = .ok t.superType := by cases t <;> rfl
+theorem fuzzy_main_category (s : FuzzySuperType) : FuzzyMessageSuperType.main_category s = .ok s.mainCategory := by
+  cases s <;> rfl
+theorem super_main_category (s : SuperType) : MessageSuperType.main_category s = .ok s.mainCategory := by
+  cases s <;> rfl
+end EN
 end Midi.GenTie
